@@ -8,6 +8,8 @@ import (
 	"context"
 	"errors"
 	"fmt"
+	"net/http"
+	"regexp"
 	"sort"
 	"strings"
 	"sync"
@@ -40,6 +42,10 @@ type Layer struct {
 	Page     int  `json:"page,omitempty"` // http: client ListPageSize (0 = default)
 	MaxPage  int  `json:"max_page,omitempty"`
 	OmitLink bool `json:"omit_link,omitempty"`
+	// LinkForm > 0: a front end re-spells the server's Link header in an equivalent form (RFC 8288):
+	// 1 unquoted rel, 2 no space after ';', 3 a further parameter, 4 a relation list that contains next,
+	// 5 an absolute URL
+	LinkForm int `json:"link_form,omitempty"`
 
 	After int `json:"after,omitempty"` // fault: error delivered after this many items
 }
@@ -170,6 +176,55 @@ func (f faulty) Referrers(ctx context.Context, r string, d ociregistry.Digest, a
 
 var baseManifest = []byte(`{"opaque":"base of the referrers"}`)
 
+// relink is a front end that re-spells Link headers in equivalent forms.
+type relink struct {
+	h    http.Handler
+	form int
+}
+
+type relinkWriter struct {
+	http.ResponseWriter
+	req  *http.Request
+	form int
+	done bool
+}
+
+var linkTarget = regexp.MustCompile(`^<([^>]*)>;\s*rel="next"$`)
+
+func (w *relinkWriter) fix() {
+	if w.done {
+		return
+	}
+	w.done = true
+	l := w.Header().Get("Link")
+	m := linkTarget.FindStringSubmatch(l)
+	if m == nil {
+		return
+	}
+	u := m[1]
+	switch w.form {
+	case 1:
+		l = "<" + u + ">; rel=next"
+	case 2:
+		l = "<" + u + `>;rel="next"`
+	case 3:
+		l = "<" + u + `>; rel="next"; title="more results"`
+	case 4:
+		l = "<" + u + `>; rel="next nofollow"`
+	case 5:
+		if strings.HasPrefix(u, "/") {
+			l = "<http://" + w.req.Host + u + `>; rel="next"`
+		}
+	}
+	w.Header().Set("Link", l)
+}
+func (w *relinkWriter) WriteHeader(code int)        { w.fix(); w.ResponseWriter.WriteHeader(code) }
+func (w *relinkWriter) Write(p []byte) (int, error) { w.fix(); return w.ResponseWriter.Write(p) }
+
+func (r relink) ServeHTTP(w http.ResponseWriter, req *http.Request) {
+	r.h.ServeHTTP(&relinkWriter{ResponseWriter: w, req: req, form: r.form}, req)
+}
+
 func referrer(name string, subject digest.Digest) []byte {
 	return []byte(fmt.Sprintf(`{"schemaVersion":2,"mediaType":%q,"config":{"mediaType":"application/vnd.oci.image.config.v1+json","digest":%q,"size":2},"layers":[],"subject":{"mediaType":"application/vnd.verif.opaque","digest":%q,"size":%d},"annotations":{"n":%q}}`,
 		ocispec.MediaTypeImageManifest, digest.FromBytes([]byte("{}")), subject, len(baseManifest), name))
@@ -289,7 +344,11 @@ func run(s Script, v *vt.V) {
 			}
 			cur = ociunify.New(cur, monitored{m1, fmt.Sprintf("second member of layer %d", i), log}, &ociunify.Options{ReadPolicy: pol})
 		case "http":
-			srv := memnet.NewServer(ociserver.New(cur, &ociserver.Options{MaxListPageSize: l.MaxPage, OmitLinkHeaderFromResponses: l.OmitLink}))
+			var handler http.Handler = ociserver.New(cur, &ociserver.Options{MaxListPageSize: l.MaxPage, OmitLinkHeaderFromResponses: l.OmitLink})
+			if l.LinkForm > 0 {
+				handler = relink{handler, l.LinkForm}
+			}
+			srv := memnet.NewServer(handler)
 			closers = append(closers, srv.Close)
 			c, err := ociclient.New(srv.Host, &ociclient.Options{Insecure: true, ListPageSize: l.Page, Transport: srv.Transport()})
 			if err != nil {
@@ -593,6 +652,9 @@ func genScript(t *rapid.T) Script {
 		case k == "http" && hops < 2:
 			hops++
 			l := Layer{Kind: "http", Page: page, OmitLink: rapid.Bool().Draw(t, "omitLink")}
+			if !l.OmitLink && rapid.IntRange(0, 2).Draw(t, "relink") == 0 {
+				l.LinkForm = rapid.IntRange(1, 5).Draw(t, "linkForm")
+			}
 			if hops == 2 {
 				l.Page = rapid.SampledFrom([]int{1, 2, 3, 0}).Draw(t, "page2")
 			}
@@ -708,7 +770,7 @@ func genScript(t *rapid.T) Script {
 var prop = &vt.Prop[Script]{
 	ID:   "C05",
 	Name: "Listings",
-	Rule: "(a sixth of the consumers cancel the listing's context after k items and go on accepting: the iteration then ends with an error or delivers the complete list) repositories / tags / referrers listings over generated contents (sizes {0,1,p-1,p,p+1,2p-1,2p,2p+1,3p+1} for client page size p in {1,2,3,5,default}), through stacks of <= 4 layers drawn from {http (<= 2 hops; MaxListPageSize absent / equal / above / below the client's page; Link on/off), debug, select(deny set), sub(prefix, with siblings px9, px9ey/x, px9-tools, px9.d/x outside it), unify(second member equal / overlapping / disjoint / repository unknown; both policies), fault(error after j items)}; start-after in {absent, an element, between elements, before all, after all, URL metacharacters & = ? % + space # and non-ASCII}; consumer stops after k items for k in {never,0,1,2,3,n,n+1}; optional second iteration of the same Seq; monitors between all layers check that no consumer is invoked after declining or after an error; oracle = independently computed sorted, de-duplicated, filtered, strictly-after list; a healthy stack must deliver exactly it, a stack with a failing layer must end with an error; non-trivial = at least one page boundary or a non-empty start point; distinct = (kind, stack shape, expected length, page size, start, stop class)",
+	Rule: "(a third of the servers that send Link headers sit behind a front end that re-spells the header in an equivalent RFC 8288 form: unquoted rel, no space, a further parameter, a relation list containing next, an absolute URL; a sixth of the consumers cancel the listing's context after k items and go on accepting: the iteration then ends with an error or delivers the complete list) repositories / tags / referrers listings over generated contents (sizes {0,1,p-1,p,p+1,2p-1,2p,2p+1,3p+1} for client page size p in {1,2,3,5,default}), through stacks of <= 4 layers drawn from {http (<= 2 hops; MaxListPageSize absent / equal / above / below the client's page; Link on/off), debug, select(deny set), sub(prefix, with siblings px9, px9ey/x, px9-tools, px9.d/x outside it), unify(second member equal / overlapping / disjoint / repository unknown; both policies), fault(error after j items)}; start-after in {absent, an element, between elements, before all, after all, URL metacharacters & = ? % + space # and non-ASCII}; consumer stops after k items for k in {never,0,1,2,3,n,n+1}; optional second iteration of the same Seq; monitors between all layers check that no consumer is invoked after declining or after an error; oracle = independently computed sorted, de-duplicated, filtered, strictly-after list; a healthy stack must deliver exactly it, a stack with a failing layer must end with an error; non-trivial = at least one page boundary or a non-empty start point; distinct = (kind, stack shape, expected length, page size, start, stop class)",
 	Gen:  genScript,
 	Run:  run,
 }
